@@ -161,7 +161,7 @@ func sameDim(a, b string) bool {
 	return x.Equal(y) && ux == uy
 }
 
-var exactAttrs = map[string]bool{"id": true, "class": true, "href": true, "xlink:href": true, "name": true, "xml:lang": true, "lang": true, "type": true, "xlink:title": true, "inkscape:label": true}
+var exactAttrs = map[string]bool{"id": true, "class": true, "href": true, "xlink:href": true, "name": true, "xml:lang": true, "lang": true, "type": true, "xlink:title": true, "inkscape:label": true, "unicode": true, "glyph-name": true, "in": true, "in2": true, "result": true, "systemLanguage": true, "title": true, "target": true}
 
 var colorAttrs = map[string]bool{"fill": true, "stroke": true, "stop-color": true, "flood-color": true, "lighting-color": true, "color": true, "solid-color": true}
 
@@ -451,6 +451,10 @@ var childItems = []string{
 	`<g fill="url(#p)" stroke="lightslateblue" color="BlanchedAlmond"/>`, `<linearGradient><stop offset="0.50" stop-color="#ffffff"/></linearGradient>`, `<image width="1" height="1" xlink:href="data:image/png;base64,AAAA"/>`,
 	// identifiers that look like numbers, together with a reference to them
 	`<g id="1000"/><use xlink:href="#1000"/>`, `<rect id="1.0" class="010 1e3" width="1000" height="0.50"/>`,
+	// character data and CDATA sections that must not join to the sequence ]]>
+	`<text>]]<![CDATA[>]]></text>`, `<text>a]<![CDATA[]>]]></text>`, `<text>]]<!--c-->&gt;</text>`, `<text>x]]</text>`, `<text><![CDATA[]]]]><![CDATA[>]]></text>`,
+	// attributes whose value is a name, a reference or text although it looks like a number
+	`<a xlink:href="010" xlink:title="1.0"><path d="M0 0L1 1"/></a>`, `<font><glyph unicode="1.0" glyph-name="007" d="M0 0L1 1"/></font>`, `<filter id="f"><feOffset in="01" result="1.0" dx="1.0"/><feBlend in="1.0" in2="01"/></filter>`, `<text xml:lang="1.0" systemLanguage="010">x</text>`,
 	// elements whose content is only white space and comments, in every combination that has to be skipped before the end tag
 	`<defs> </defs>`, "<defs>\n  </defs>", `<g> <!--a--></g>`, "<defs>\n<!-- c -->\n</defs>", `<g><!--a--><!--b--></g>`, `<g> <!--a--> <!--b--> </g>`, `<defs><!--a--></defs>`, `<symbol id="s"> </symbol>`,
 	// numeric references to markup characters in text and in attribute values
